@@ -94,13 +94,22 @@ REFINE = {
  "C15": "SatE.sat_C15 / C15_tags", "C16": "SatC.sat_C16", "C17": "SatE.sat_C17", "C18": "SatA.sat_C18", "C20": "SatC.sat_C20",
 }
 
+EXTRA = {
+ "C14": " Registry clause Spec.C14.checkReg (a successful RemoveVamm / AddVamm changes exactly the named entry, nothing else changes the registry): SatExtra3.sat_C14_reg, reachable_extra3, history_extra3.",
+ "C18": " Feed clause Spec.C18F.recordedOk (an accepted submission is exactly one new round with the submitted values, older rounds untouched; latest / n-back answers are judged against what was SUBMITTED): C18FRec.appendPrice_recorded / appendMultiple_recorded.",
+ "C20": " Deployment: Engine.instantiate is modelled (Model/Instantiate.lean) and compared with the contract on boundary-biased instantiate probes (EINST lines, incl. collaterals with 0..39 decimals); Inst.instantiate_ok_iff (accepts exactly the in-bounds messages), instantiate_configOK, instantiate_fresh.",
+ "C10": " Query view: after every transaction the engine's own answer to Position{vamm, trader} for every deployed market x trading account is compared with the stored records and with its previous answer (only the sender's own answers, or the one a Liquidate names, may change).",
+}
+
 def refine_text(pid):
     if pid == "C13":
         return (" Transaction level (SatG): twin_withdraw / twin_liquidate / twin_payFunding prove, for every world, that the native deployment's whole "
                 "transaction EQUALS the cw20 deployment's mapped to native form (outcome incl. error value, engine and vAMM state, balances, transfer list); "
                 "twin_deposit, twin_open_increase(_outcome) and twin_close_whole prove agreement of engine state, vAMM state and every account's balance when "
                 "the native caller attaches exactly what the cw20 run pulls (flat / same-side opens; whole closes without vault shortfall and with the fee "
-                "payable up front); the recorded findings F10a/b/c and one more divergence are kernel-evaluated witness worlds (SatGWitness).")
+                "payable up front); SatGReduce.twin_open_reduce / twin_close_partial prove the same for reducing orders and partial closes (both directions, with non-vacuity "
+                "worlds evaluated by the kernel; the native partial close does not compare the attached amount with the fees, witness F10d, hence the fee-equality premise "
+                "of direction B); the recorded findings F10a/b/c and one more divergence are kernel-evaluated witness worlds (SatGWitness). Not covered: reversing orders.")
     if pid not in REFINE:
         return ""
     return (f" Refinement layer: {REFINE[pid]} proves, for every world, block, sender, funds and transaction, that the observation record of the "
@@ -108,7 +117,11 @@ def refine_text(pid):
             "implementation's observations (hypotheses: invariants proved preserved by World.step, deployment wiring, or preconditions of the "
             "property; each with a kernel-evaluated witness that it is needed; see DESIGN.md §7.1). Capstone.reachable_sat / history_sat: along every "
             "history of user transactions from a deployment (side conditions SideOK at each step) every tag of every Spec check of the model's step is "
-            "one of the five tags of the recorded findings, and this property's check is [] where it has no recorded finding.")
+            "one of the five tags of the recorded findings, and this property's check is [] where it has no recorded finding. The hypotheses themselves are "
+            "monitored on the IMPLEMENTATION: Spec.Monitor gives Boolean versions of Deployed / AllInv / SideOK, proved equivalent to the Props "
+            "(MonitorSound.deployed_iff / allInv_iff / side_iff); the driver evaluates them on every observed deployment and step, reports in "
+            "evidence.coverage.theorem_domain how many observed steps lie inside the theorems' domain, and treats a violated prediction AllInv(post) "
+            "on an in-domain step as a correspondence break." + EXTRA.get(pid, ""))
 
 NOT_YET = "not claimed in this commit: world-level model/theorems under construction (DESIGN.md §8 build order)"
 
